@@ -35,7 +35,7 @@ ID = "C12"
 LEVEL = "exploration"
 EXHAUSTIVE = True
 RULE = (
-    "single: swatch sets x forms {4x6x3, 24x3, 6x3} x ground-truth maps (identity, diagonals, I+eps*M linear, affine, one non-affine) x balance "
+    "single: swatch sets x forms {4x6x3, 24x3, 6x3, 4x6x3 stored column-major, 3x3} x ground-truth maps (identity, diagonals, I+eps*M linear, affine, one non-affine) x balance "
     "{White, Color, Affine, Adaptive:diagonal|linear|affine} x start {identity, prescribed non-identity} x entry {find+apply, __call__, "
     "shortcut function}; staged: (swatch set, form) x maps x targets {same destination for all stages, a different map per stage} x EVERY "
     "ordered pair and triple of {diagonal, linear, affine}; correction: "
@@ -120,6 +120,9 @@ _CLASSIC = [
 
 SETS = ("f0", "f1", "classic")
 FORMS = ("4x6x3", "24x3", "6x3")
+# further forms of the single-balance lattice: the grid stored column-major (a transposed view / Fortran-
+# ordered reader) and a flat list of exactly three swatches (enough for diagonal and linear maps)
+EXTRA_FORMS = ("4x6x3-F", "3x3")
 
 # start balances for "start = given" (what a previous, unrelated fit could have left behind)
 START_A = {1: np.diag([1.5, 0.5, 1.25]), 2: np.eye(3) + 0.125 * np.array(_M["gen"]).T, 3: np.eye(3) + 0.125 * np.array(_M["gen"]).T}
@@ -178,6 +181,14 @@ def shaped(S, form):
         return S.reshape(-1, 3).copy()
     if form == "6x3":
         return S[0].copy()
+    if form == "4x6x3-F":
+        return np.asfortranarray(S.copy())
+    if form == "3x3":
+        flat = S.reshape(-1, 3)
+        for trip in itertools.combinations(range(len(flat)), 3):
+            if np.linalg.cond(flat[list(trip)]) < 8:
+                return flat[list(trip)].copy()
+        raise ValueError("no well-conditioned swatch triple")
     raise ValueError(form)
 
 
@@ -252,6 +263,15 @@ def cases(tier):
                 if entry == "call" and bal in ("Adaptive:diagonal", "Adaptive:linear"):
                     continue  # __call__ of the adaptive balance has no mode argument: it is the affine stage
                 out.append({"kind": "single", "set": s, "form": f, "truth": t, "dtype": dt, "balance": bal, "start": start, "entry": entry})
+    for s, f, t in itertools.product(a["sets"], EXTRA_FORMS, a["truths"]):
+        for bal in BALANCES:
+            level = BALANCES[bal][2]
+            if f == "3x3" and (level == 3 or truth_map(t)[0] not in ("identity", "diagonal", "linear")):
+                continue  # three swatches determine a linear map, not an affine one
+            for start, entry in (("identity", "find+apply"), ("identity", "call")):
+                if entry == "call" and bal in ("Adaptive:diagonal", "Adaptive:linear"):
+                    continue
+                out.append({"kind": "single", "set": s, "form": f, "truth": t, "dtype": "float64", "balance": bal, "start": start, "entry": entry})
     a = ax["staged"]
     for n in (2, 3):
         for targets in ("same", "moving"):
@@ -315,7 +335,7 @@ def _inputs(case):
     S = swatch_set(case["set"])
     src = shaped(S, case["form"])
     flat = src.reshape(-1, 3)
-    cond = np.linalg.cond(np.hstack([flat, np.ones((len(flat), 1))]))
+    cond = np.linalg.cond(np.hstack([flat, np.ones((len(flat), 1))])) if len(flat) > 3 else np.linalg.cond(flat)
     assert cond < 30, f"swatch set not well conditioned: {cond}"
     tcls, A, b = truth_map(case["truth"])
     if case.get("dtype", "float64") == "float32":
@@ -331,7 +351,7 @@ def _run_single(case, r):
     src0, dst0 = src.copy(), dst.copy()
     name = case["balance"]
     clsname, mode, level = BALANCES[name]
-    grid = "grid" if case["form"] == "4x6x3" else "flat"
+    grid = {"4x6x3": "grid", "4x6x3-F": "grid-column-major", "3x3": "flat-3"}.get(case["form"], "flat")
     tag = f"{name}/truth={tcls}/{grid}/start={case['start']}"
     kw = {} if mode is None else {"mode": mode}
 
